@@ -240,8 +240,15 @@ def run(ctx) -> None:
     ctor = [c for c in ast.walk(pv.node) if isinstance(c, ast.Call) and unparse(c.func).endswith("V2VersionInfo")]
     ctx.require(len(ctor) == 1, "parse_field_values_to_vinfo: V2VersionInfo constructor call not found")
     kws = shapes.kwargs_of(ctor[0])
+    # `**cinfo._asdict()` hands on every calendar field of the V2CalendarInfo under its own name
+    cal_fields = set(prog.klass("version.V2CalendarInfo").fields)
+    splat_src = [k.value.func.value for k in ctor[0].keywords if k.arg is None and isinstance(k.value, ast.Call) and isinstance(k.value.func, ast.Attribute) and k.value.func.attr == "_asdict"]
+    splat_cal = any(isinstance(d_, ast.Call) and unparse(d_.func) == "parse_field_values_to_cinfo" for s_ in splat_src for d_ in [shapes.resolve_alias(pv, s_)])
     for fld in vinfo.fields:
         v = kws.get(fld)
+        if v is None and splat_cal and fld in cal_fields:
+            ctx.ok("R4", f"V2VersionInfo({fld}=...) receives the value parsed for '{fld}' (through **cinfo._asdict())")
+            continue
         good = v is not None and (unparse(v) == fld or unparse(v) == f"cinfo.{fld}")
         ctx.check("R4", good, f"V2VersionInfo({fld}=...) receives the value parsed for '{fld}'", f"v2version.parse_field_values_to_vinfo: field '{fld}' is filled from another value",
                   f"{fld}={unparse(v) if v is not None else None}", loc=pv.loc(ctor[0]))
